@@ -279,7 +279,44 @@ def c09(cx):
              "length -1 for every NULL kind and length 0 for empties. Random driver: 1-8 columns, 10 rows, 3 rounds.")
 
 
-PROPS = {"C09": c09, "C14": c14, "C16": c16, "C20": c20, "C10": c10, "C19": c19, "C12": c12, "C01": c01, "C13": c13, "C05": c05, "C06": c06, "C07": c07, "C08": c08, "C17": c17}
+def c02(cx):
+    build_harness(cx)
+    thorough = cx.tier == "thorough"
+    # (a) the frame writer itself: every operation sequence, failing underlying writer, abandoned frames
+    b = model_check(cx, "MC_PgWriter", consts=({"MaxOps": 6, "MaxFail": 3} if thorough else None))
+    sample_behaviours(cx, b)
+    trace, crash = play(cx, b, "writer", cmd="writer")
+    rejected = [] if crash else validate(cx, trace, "Trace_PgWriter")
+    judge(cx, b, trace, rejected, crash, "Trace_PgWriter", play_cmd="writer")
+    files = [b]
+    # (b) every byte any driver makes the server emit goes through the grammar
+    n = 3000 if thorough else 250
+    for fam in ["C05", "C06", "C08", "C09", "C13", "C17", "C12", "C01", "C19", "C10", "C07"]:
+        g = gen_random(cx, fam, n, tag="rand-" + fam)
+        files.append(g)
+        if fam == "C17":
+            sample_behaviours(cx, g)
+        trace, crash = play(cx, g, "wire-" + fam, extra=["-proj", "C02"])
+        rejected = [] if crash else validate(cx, trace, "Trace_PgWire")
+        judge(cx, g, trace, rejected, crash, "Trace_PgWire", play_extra=["-proj", "C02"])
+    count_distinct(cx, *files)
+    cx.cov["trusted_base"] = TB_CONN
+    return finish(cx, "model_checking",
+                  "(a) PgWriter: TLC enumerates every sequence of up to MaxOps Start/Add*/End/Reset operations with the "
+                  "underlying writer failing from its k-th Write on, checks that what the sink accepted is always a sequence "
+                  "of complete, correctly sized messages and that a frame started after a failed or abandoned one is fresh; "
+                  "each sequence is replayed on the real buffer.Writer (public API, failing io.Writer) and validated by TLC "
+                  "against the same actions (frame length after every operation, End result, newly sunk message type and "
+                  "length, nothing trailing). (b) the output of the real server under the drivers of eleven property "
+                  "families (simple/extended query with rejected and abandoned rows, typed values, COPY, decorated errors, "
+                  "startup, auth, lifecycle, size limit) is framed and decoded by the strict decoder; TLC checks every "
+                  "message against the backend grammar PgOps.GrammarOK (known type, every field present, declared = actual "
+                  "counts, nothing trailing, ErrorResponse terminated / no duplicate field / mandatory fields) and that no "
+                  "partial frame is left at the end.",
+                  ASSUME_CONN + ["the byte-to-structural-facts scanner of the harness is trusted (the grammar decision is TLA+'s)"])
+
+
+PROPS = {"C02": c02, "C09": c09, "C14": c14, "C16": c16, "C20": c20, "C10": c10, "C19": c19, "C12": c12, "C01": c01, "C13": c13, "C05": c05, "C06": c06, "C07": c07, "C08": c08, "C17": c17}
 
 
 def replay(cx, path):
